@@ -112,13 +112,16 @@ func reachExecAssume(fn *ssa.Function, cut map[Edge]bool, decide func(*ssa.If) (
 	}
 	visitingNil := map[*ssa.Phi]bool{}
 	// evalNil: cTrue = the value is nil, cFalse = certainly not nil
-	var evalNil func(v ssa.Value, depth int) lat
-	evalNil = func(v ssa.Value, depth int) lat {
+	var evalNil func(v ssa.Value, depth int, at *ssa.BasicBlock) lat
+	evalNil = func(v ssa.Value, depth int, at *ssa.BasicBlock) lat {
 		if depth > 8 {
 			return over
 		}
 		if nonNil != nil && nonNil(v) {
 			return cFalse
+		}
+		if at != nil && testedNonNilAt(v, at) {
+			return cFalse // `at` lies behind the not-nil edge of a test of this value
 		}
 		switch x := v.(type) {
 		case *ssa.Const:
@@ -135,7 +138,7 @@ func reachExecAssume(fn *ssa.Function, cut map[Edge]bool, decide func(*ssa.If) (
 			case "github.com/pkg/errors.Wrap", "github.com/pkg/errors.Wrapf", "github.com/pkg/errors.WithMessage", "github.com/pkg/errors.WithMessagef", "github.com/pkg/errors.WithStack":
 				// nil for a nil error, an error otherwise
 				if len(x.Call.Args) > 0 {
-					return evalNil(x.Call.Args[0], depth+1)
+					return evalNil(x.Call.Args[0], depth+1, at)
 				}
 			}
 			return over
@@ -154,7 +157,7 @@ func reachExecAssume(fn *ssa.Function, cut map[Edge]bool, decide func(*ssa.If) (
 				if !edgeExec(b, i) {
 					continue
 				}
-				res = meet(res, evalNil(x.Edges[i], depth+1))
+				res = meet(res, evalNil(x.Edges[i], depth+1, b.Preds[i]))
 				if res == over {
 					return over
 				}
@@ -200,7 +203,7 @@ func reachExecAssume(fn *ssa.Function, cut map[Edge]bool, decide func(*ssa.If) (
 					other = x.Y
 				}
 				if other != nil {
-					switch evalNil(other, depth+1) {
+					switch evalNil(other, depth+1, x.Block()) {
 					case cTrue: // is nil
 						if x.Op == token.EQL {
 							return cTrue
@@ -622,4 +625,27 @@ func StripBoolWrappers(v ssa.Value) ssa.Value {
 		}
 		return v
 	}
+}
+
+// testedNonNilAt: block `at` is reached only through the not-nil edge of a branch on v == nil / v != nil.
+func testedNonNilAt(v ssa.Value, at *ssa.BasicBlock) bool {
+	for d := at; d != nil; d = d.Idom() {
+		id := d.Idom()
+		if id == nil || len(id.Instrs) == 0 {
+			continue
+		}
+		i, ok := id.Instrs[len(id.Instrs)-1].(*ssa.If)
+		if !ok {
+			continue
+		}
+		cd, ok := Classify(i)
+		if !ok || cd.Kind != "nil" || cd.X != v {
+			continue
+		}
+		t := cd.EdgeWhen(false).To()
+		if t == d && len(t.Preds) == 1 {
+			return true
+		}
+	}
+	return false
 }
